@@ -35,6 +35,7 @@ type MarkSpec struct {
 type AnchorAssert struct {
 	Anchor string // "call:<callee-substring>#n" or "store:<field>#n"
 	Clause Clause
+	Wild   bool // inherited from a wildcard contract: need not match anything in this particular function
 }
 
 type FuncContract struct {
@@ -61,6 +62,7 @@ type FuncContract struct {
 	Results   []string // optional explicit result names
 	Params    []string // for trusted specs of external funcs: parameter names
 	Line      int
+	mergedWild bool
 }
 
 type SpecParam struct {
